@@ -144,6 +144,20 @@ CHECKS = {
             "Quiescence not reached in 4 s is inconclusive. An injected drift that is never detected (8-bit checksum collision with a lagging "
             "queue tick, or no later update) is counted and not asserted, as the statement speaks of detected drift. Low case counts (real sockets).",
             "model-free system-level property-based testing (rapid) with fault injection and harness-owned schedule points", "DESIGN.md §5 C09"),
+    "C17": ("exploration",
+            "Model-based property-based testing of pkg/history: generated schema, handler table (vetoes give rejected transitions), history, "
+            "tracking configuration (Called/Changed allow or block list, both block lists, TrackRejected, tracked subset, StoreTransitions, MaxRecords "
+            "1..12/1000, batch size, paced or burst) x back-end {memory, bbolt, badger, gorm/sqlite in temp dirs}. An independent recording tracer "
+            "filtered by the documented tracking rules is the reference log: the stored records must be exactly its newest suffix, field by field "
+            "(exactly MaxRecords for memory; at least MaxRecords and at most 2.5 x MaxRecords + 2 x batch + 2 for paced persistent back-ends); "
+            "generated queries (any combination of Active/Activated/Inactive/Deactivated, one scalar, vector or human-time range with bounds on and "
+            "between stored records, limit) must return precisely the reference records that satisfy the documented meaning, newest first; the "
+            "*Between helpers must equal existence. Import(Export()) (also through JSON, two generations) is compared state by state; a persistent "
+            "back-end is synced, closed and re-opened by a machine rebuilt with Import(Export) and must read back what it stored and append after it.",
+            "Allow+allow and allow+block list combinations are not generated (and/or is undocumented); Multi re-activation makes Activated ambiguous "
+            "and such queries are not judged; bursts faster than the write-behind are not judged for the bound; crash points are 'after Sync + close' "
+            "(a copy of an open database file is not taken); known finding C17-stale-records-below-a-hole.",
+            "model-based property-based testing (rapid) against a reference log, four-back-end differential through the shared oracle, round trip", "DESIGN.md §5 C17"),
     "C18": ("exploration",
             "Property-based exploration of pipes: generated source schemas and toggle histories (bursts from 1..3 goroutines, Multi states, args) x "
             "binding kind (Bind, BindMany, BindReady, BindErr, BindConnected, BindAny, flat Add/Remove). The pipe's target is a harness am.Api proxy "
